@@ -200,7 +200,9 @@ structure Params where
   codec : Codec
   /-- the streaming decompressor: a deterministic function of its call history -/
   dzRead : Cenc → List DzCall → DzCall → DzOut
-  dzFuel : Nat
+  /-- fuel of one `decoder_read` (a modelling device: the Rust loop has no counter) as a function of the BlockWriter at the call -
+      it may depend on the ring content, the buffer size, the history -/
+  dzFuel : BW → Nat
   /-- base64 of the MD5 digest -/
   md5 : Bytes → String
   env : Env
@@ -323,7 +325,7 @@ def dwLoop (P : Params) : Nat → St → BW → Bytes → Nat → Bool → Rx (S
       let size := min free (pkt.length - offset)
       let dz := { dz with ring := dz.ring ++ (pkt.drop offset).take size }
       let w := { w with dz := some dz }
-      match decoderRead P P.dzFuel st w with
+      match decoderRead P (P.dzFuel w) st w with
       | .error f => .error f
       | .ok (st, w, false) => .ok (st, w, false)
       | .ok (st, w, true) =>
@@ -343,7 +345,8 @@ def decodeWritePkt (P : Params) (st : St) (w : BW) (pkt : Bytes) : Rx (St × BW 
     let ctor : DzCall := { avail := pkt, fin := false, buflen := 0 }
     let o := P.dzRead w.cenc [] ctor
     let dz : DzSt := { cap := 2 * pkt.length, ring := pkt.drop o.take, fin := false, hist := [ctor] }
-    decoderRead P P.dzFuel st { w with dz := some dz, bufLen := pkt.length }
+    let w := { w with dz := some dz, bufLen := pkt.length }
+    decoderRead P (P.dzFuel w) st w
   | some _ => dwLoop P (2 * pkt.length + 2) st w pkt 0 false
 
 /-- "Detect the size of the last symbol": `match self.bytes_left > data.len() { true => data, false => &data[..self.bytes_left] }` -/
@@ -361,7 +364,9 @@ def bwData (P : Params) (st : St) (w : BW) (data : Bytes) : Rx (St × BW × Bool
 /-- all blocks written: `decoder.finish()` + `decoder_read` when a decompressor exists -/
 def bwFinish (P : Params) (st : St) (w : BW) : Rx (St × BW × Bool) :=
   match w.dz with
-  | some dz => decoderRead P P.dzFuel st { w with dz := some { dz with fin := true } }
+  | some dz =>
+    let w := { w with dz := some { dz with fin := true } }
+    decoderRead P (P.dzFuel w) st w
   | none => .ok (st, w, true)
 
 /-- `BlockWriter::write`: `none` = `Err`, `some success` -/
@@ -470,6 +475,12 @@ def growBlocks (st : St) (off : Nat) : St :=
   if st.blocks.length ≤ off
   then { st with blocks := st.blocks ++ List.replicate (off + 1 - st.blocks.length) {} } else st
 
+/-- the MD5 test of the empty object (no BlockWriter exists for transfer length 0): `!enable_md5_check || content_md5 == md5("")` -/
+def emptyMd5Valid (P : Params) (st : St) : Bool :=
+  !st.md5Check || (match st.md5 with
+    | some m => m == P.md5 []
+    | none => true)
+
 /-- `push_to_block2` -/
 def pushToBlock2 (P : Params) (st : St) (p : Pkt) : Rx (St × Bool) :=
   match st.oti, st.tl with
@@ -480,8 +491,9 @@ def pushToBlock2 (P : Params) (st : St) (p : Pkt) : Rx (St × Bool) :=
     | .ok (some pid) =>
       if tl = 0 then
         if st.bw.isSome then .error (.panic "debug_assert block_writer.is_none()") else
-        -- D14 repaired (/repo 7ec1ac7): an empty object is completed only once its writer exists
-        .ok (if st.writer.isSome then complete st else st, true)
+        -- D14 repaired (/repo 7ec1ac7): an empty object is completed only once its writer exists;
+        -- D33 repaired (/repo 57ee198): with MD5 checking enabled the announced digest must be that of the empty string
+        .ok (if st.writer.isSome then (if emptyMd5Valid P st then complete st else error st false) else st, true)
       else if st.nbBlocks ≤ pid.sbn then .ok (st, true)      -- SBN out of range: packet ignored
       else if pid.sbn < st.blocksOffset then .ok (st, true)
       else if st.blocks.length ≤ pid.sbn - st.blocksOffset ∧ 2 * MAX_PREALLOCATED_BLOCKS < pid.sbn - st.blocksOffset then
@@ -615,30 +627,63 @@ def attachMeta (st : St) (fdtId : Nat) (f : FileEntry) : Rx St :=
   let tl := if st.tl.isNone then some f.tl else st.tl
   .ok { st with cenc := cenc, oti := oti, tl := tl, md5 := f.md5, fdtId := some fdtId, cl := f.cl, noCache := some f.noCache }
 
+/-- does the FDT File entry contradict the OTI / transfer length learned in band (/repo: the FDT is the authority)?  Only before the
+    writer exists; compares scheme, E, L and the partition of `(B_fdt, L_fdt, E_fdt)` with the stored one -/
+def fdtConflict (st : St) (f : FileEntry) : Rx Bool :=
+  if st.writer.isSome then .ok false else
+  match st.oti, f.oti with
+  | some o, some fo =>
+    if o.scheme ≠ fo.scheme ∨ o.e ≠ fo.e ∨ st.tl ≠ some f.tl then .ok true else
+    match liftRs (Partition.blockPartitioning fo.b f.tl fo.e) with
+    | .error e => .error e
+    | .ok q => .ok (decide (q ≠ (st.aLarge, st.aSmall, st.nbALarge, st.nbBlocks)))
+  | _, _ => .ok false
+
+/-- forget the in-band OTI and everything decoded under its partition -/
+def resetOti (st : St) : St :=
+  { st with oti := none, tl := none, blocks := [], blocksOffset := 0, nbAlloc := 0, totalAlloc := 0,
+            aLarge := 0, aSmall := 0, nbALarge := 0, nbBlocks := 0 }
+
+/-- `attach_fdt` once the File entry is known and the in-band OTI has been confronted with it: metadata, block table, writer,
+    replay of the cache, `write_blocks(0)` -/
+def attachCore (P : Params) (st : St) (fdtId : Nat) (f : FileEntry) : Rx (St × Bool) :=
+  match attachMeta st fdtId f with
+  | .error e => .error e
+  | .ok st =>
+  match initBlocksPartitioning st with
+  | .error e => .error e
+  | .ok st =>
+  match initObjectWriter P st with
+  | .error e => .error e
+  | .ok st =>
+  match pushFromCache P st with
+  | .error e => .error e
+  | .ok st =>
+  match writeBlocks P st 0 with
+  | .error e => .error e
+  | .ok (st, ok) =>
+  match pushFromCache P (if ok then st else error st false) with
+  | .error e => .error e
+  | .ok st => .ok (st, true)
+
+
+/-- `attach_fdt` WITHOUT the confrontation of the in-band OTI with the FDT (the code before the repair; kept as the function the
+    invariant passes are proved for - `attachFdt` is this function on `st` or on `resetOti st`, see `attachFdt_cases`) -/
+def attachFdtOld (P : Params) (st : St) (fdtId : Nat) (file : Option FileEntry) : Rx (St × Bool) :=
+  if st.fdtId.isSome then .ok (st, false) else
+  match file with
+  | none => .ok (st, false)
+  | some f => attachCore P st fdtId f
+
 /-- `attach_fdt(fdt_instance_id, fdt)`; `file = fdt.get_file(toi)`; the flag is the return value -/
 def attachFdt (P : Params) (st : St) (fdtId : Nat) (file : Option FileEntry) : Rx (St × Bool) :=
   if st.fdtId.isSome then .ok (st, false) else
   match file with
   | none => .ok (st, false)
   | some f =>
-    match attachMeta st fdtId f with
+    match fdtConflict st f with
     | .error e => .error e
-    | .ok st =>
-    match initBlocksPartitioning st with
-    | .error e => .error e
-    | .ok st =>
-    match initObjectWriter P st with
-    | .error e => .error e
-    | .ok st =>
-    match pushFromCache P st with
-    | .error e => .error e
-    | .ok st =>
-    match writeBlocks P st 0 with
-    | .error e => .error e
-    | .ok (st, ok) =>
-    match pushFromCache P (if ok then st else error st false) with
-    | .error e => .error e
-    | .ok st => .ok (st, true)
+    | .ok c => attachCore P (if c then resetOti st else st) fdtId f
 
 /-- `impl Drop for ObjectReceiver` -/
 def drop (st : St) : St :=
